@@ -697,18 +697,18 @@ _PAIR_FORMS = tuple(f'{f}:{l}@{r}' for f in FORMS for l in LEFT_KINDS for r in R
 _POOLS = ('grid15', 'pole_exact', 'pole<=1e-3', 'pole_threshold_zone', 'free_large', 'free_small', 'tiny_offset')
 
 SUBCHECKS = [
-    Sub('build', exec_build, strategy=build_strategy, enumerate=build_enumerate, quick=4000, thorough=160000, floor=500,
+    Sub('build', exec_build, strategy=build_strategy, enumerate=build_enumerate, quick=10000, thorough=240000, floor=500,
         must_hit=tuple('a:' + p for p in _POOLS) + tuple('form:' + f for f in BUILD_FORMS)),
-    Sub('compose', exec_compose, strategy=compose_strategy, quick=4000, thorough=240000, floor=500,
+    Sub('compose', exec_compose, strategy=compose_strategy, quick=10000, thorough=320000, floor=500,
         must_hit=('gimbal_product',) + tuple(f'{v}@{a}@{b}' for v in VEC_KINDS for a in ROT_KINDS for b in ROT_KINDS)),
-    Sub('typemix', exec_typemix, strategy=typemix_strategy, quick=4000, thorough=240000, floor=500,
+    Sub('typemix', exec_typemix, strategy=typemix_strategy, quick=10000, thorough=320000, floor=500,
         must_hit=_PAIR_FORMS + ('gimbal_result',)),
-    Sub('operands', exec_operands, strategy=typemix_strategy, quick=2500, thorough=120000, floor=300, must_hit=_PAIR_FORMS),
-    Sub('inplace', exec_inplace, strategy=typemix_strategy, quick=2500, thorough=120000, floor=300, must_hit=_PAIRS),
-    Sub('roundtrip', exec_roundtrip, strategy=source_strategy, enumerate=source_enumerate, quick=4000, thorough=240000, floor=500,
+    Sub('operands', exec_operands, strategy=typemix_strategy, quick=6000, thorough=160000, floor=300, must_hit=_PAIR_FORMS),
+    Sub('inplace', exec_inplace, strategy=typemix_strategy, quick=6000, thorough=160000, floor=300, must_hit=_PAIRS),
+    Sub('roundtrip', exec_roundtrip, strategy=source_strategy, enumerate=source_enumerate, quick=10000, thorough=320000, floor=500,
         must_hit=tuple('src:' + s for s in SOURCES) + ('gimbal_h<1e-15', 'gimbal_h<1e-9', 'gimbal_h<=1e-3', 'near_threshold_h<=1e-2')
         + tuple('basis:' + b for b in BASIS_AXES)),
-    Sub('inverse', exec_inverse, strategy=source_strategy, enumerate=source_enumerate, quick=2500, thorough=80000, floor=300,
+    Sub('inverse', exec_inverse, strategy=source_strategy, enumerate=source_enumerate, quick=6000, thorough=120000, floor=300,
         must_hit=tuple('src:' + s for s in SOURCES)),
 ]
 
